@@ -200,4 +200,213 @@ theorem slippage_safe (amount bps v : Nat) :
       generalize (10000 - bps) * amount / 10000 = q at *
       constructor <;> omega
 
+/-! ### next-price functions -/
+
+set_option linter.unusedVariables false in
+theorem bounds_tail (Q mn mx u : Nat) (_hmn : mn ≤ u) (hmx : mx ≤ u) :
+    (if (decide (Q < mn) || decide (Q > mx)) = true then (Except.error Err.Other : R Nat) else .ok Q).toOption =
+    (match (if Q ≤ u then (Except.ok Q : R Nat) else .error .NumberDownCastError) with
+      | .error e => (Except.error e : R Nat)
+      | .ok price =>
+        if price < mn then Except.error Err.TokenMinSubceeded
+        else if price > mx then Except.error Err.TokenMaxExceeded
+        else Except.ok price).toOption := by
+  by_cases c3 : Q ≤ u
+  · rw [if_pos c3]
+    simp only []
+    by_cases c1 : Q < mn
+    · rw [if_pos (by simp [c1]), if_pos c1]; rfl
+    · by_cases c2 : Q > mx
+      · rw [if_pos (by simp [c2]), if_neg c1, if_pos c2]; rfl
+      · rw [if_neg (by simp [c1, c2]), if_neg c1, if_neg c2]
+  · rw [if_neg c3]
+    simp only []
+    rw [if_pos (by simp; right; omega)]; rfl
+
+/-- **next price from token A** (exact-in and exact-out): the SDK returns exactly the program's value when
+    the program returns one, and fails on every input on which the program fails -/
+theorem sdk_next_a_eq (p liq amount : Nat) (i : Bool) (hp : p ≤ U128_MAX) (hl : liq ≤ U128_MAX) (ha : amount ≤ U64_MAX) :
+    (sdkNextFromA p liq amount i).toOption = (getNextSqrtPriceFromARoundUp p liq amount i).toOption := by
+  unfold sdkNextFromA getNextSqrtPriceFromARoundUp sdkShl64
+  by_cases h0 : amount = 0
+  · simp only [h0, if_true]
+  · simp only [h0, if_false]
+    by_cases hs : liq * p > U256_MAX / TWO64
+    · have hs' := (shl_cond _).mp hs
+      simp only [hs, hs', if_true, Except.toOption]
+    · have hs' : ¬ liq * p ≥ TWO128 * TWO64 := fun h => hs ((shl_cond _).mpr h)
+      simp only [hs, hs', if_false]
+      -- sizes
+      have hW : TWO128 * TWO64 * TWO64 = TWO256 := by decide +kernel
+      have hW2 : TWO128 * TWO64 + TWO128 * TWO64 ≤ TWO256 := by decide +kernel
+      have h64 : 1 < TWO64 := by decide +kernel
+      have hprod : p * amount < TWO128 * TWO64 := by
+        have h1 : p * amount ≤ U128_MAX * U64_MAX := Nat.mul_le_mul hp ha
+        have h2 : U128_MAX * U64_MAX < TWO128 * TWO64 := by decide +kernel
+        omega
+      have hshl : liq * TWO64 < TWO128 * TWO64 := by
+        have h1 : liq * TWO64 ≤ U128_MAX * TWO64 := Nat.mul_le_mul_right _ hl
+        have h2 : U128_MAX * TWO64 < TWO128 * TWO64 := by decide +kernel
+        omega
+      have hnum : liq * p * TWO64 + TWO64 ≤ TWO256 := by
+        have h3 : liq * p + 1 ≤ TWO128 * TWO64 := by omega
+        have h4 : (liq * p + 1) * TWO64 ≤ TWO128 * TWO64 * TWO64 := Nat.mul_le_mul_right _ h3
+        rw [hW, Nat.add_mul, Nat.one_mul] at h4
+        exact h4
+      -- the common tail: ceil(num / den) checked against the bounds
+      have tail : ∀ den : Nat, den ≠ 0 →
+          (if (decide ((if liq * p * TWO64 % den ≠ 0 then liq * p * TWO64 / den + 1 else liq * p * TWO64 / den) < MIN_SQRT_PRICE_X64) ||
+               decide ((if liq * p * TWO64 % den ≠ 0 then liq * p * TWO64 / den + 1 else liq * p * TWO64 / den) > MAX_SQRT_PRICE_X64)) = true
+            then (Except.error Err.Other : R Nat)
+            else .ok (if liq * p * TWO64 % den ≠ 0 then liq * p * TWO64 / den + 1 else liq * p * TWO64 / den)).toOption =
+          (match divRoundUpIfU256 (liq * p * TWO64) den true with
+            | .error e => (Except.error e : R Nat)
+            | .ok price =>
+              if price < MIN_SQRT_PRICE_X64 then Except.error Err.TokenMinSubceeded
+              else if price > MAX_SQRT_PRICE_X64 then Except.error Err.TokenMaxExceeded
+              else Except.ok price).toOption := by
+        intro den hden
+        have hdiv : liq * p * TWO64 / den ≤ liq * p * TWO64 := Nat.div_le_self _ _
+        have key : divRoundUpIfU256 (liq * p * TWO64) den true =
+            (if (if liq * p * TWO64 % den ≠ 0 then liq * p * TWO64 / den + 1 else liq * p * TWO64 / den) ≤ U128_MAX
+              then .ok (if liq * p * TWO64 % den ≠ 0 then liq * p * TWO64 / den + 1 else liq * p * TWO64 / den)
+              else .error .NumberDownCastError) := by
+          unfold divRoundUpIfU256
+          rw [if_neg hden]
+          simp only [Bool.true_and]
+          by_cases hr : liq * p * TWO64 % den ≠ 0
+          · have hr' : decide (liq * p * TWO64 % den > 0) = true := decide_eq_true (Nat.pos_of_ne_zero hr)
+            rw [if_pos hr, if_pos hr', Nat.mod_eq_of_lt (by omega)]
+          · have hr0 : liq * p * TWO64 % den = 0 := by omega
+            have hr' : decide (liq * p * TWO64 % den > 0) = false := by rw [hr0]; rfl
+            rw [if_neg hr, hr']
+            simp only [Bool.false_eq_true, if_false]
+        rw [key]
+        generalize (if liq * p * TWO64 % den ≠ 0 then liq * p * TWO64 / den + 1 else liq * p * TWO64 / den) = Q
+        exact bounds_tail Q MIN_SQRT_PRICE_X64 MAX_SQRT_PRICE_X64 U128_MAX (by decide +kernel) (by decide +kernel)
+      cases i with
+      | true =>
+        simp only [if_true, Bool.not_true, Bool.false_and, Bool.false_eq_true, if_false]
+        rw [Nat.mod_eq_of_lt (a := liq * TWO64 + p * amount) (b := TWO256) (by omega)]
+        by_cases hd : liq * TWO64 + p * amount = 0
+        · rw [if_pos hd]
+          have e : divRoundUpIfU256 (liq * p * TWO64) (liq * TWO64 + p * amount) true = .error .Panic := by
+            unfold divRoundUpIfU256
+            exact if_pos hd
+          rw [e]
+        · rw [if_neg hd]
+          exact tail _ hd
+      | false =>
+        simp only [Bool.false_eq_true, if_false, Bool.not_false, Bool.true_and]
+        by_cases hle : liq * TWO64 ≤ p * amount
+        · have hc : decide (liq * TWO64 ≤ p * amount) = true := decide_eq_true hle
+          rw [if_pos hc]
+          by_cases heq : liq * TWO64 = p * amount
+          · have : (liq * TWO64 + TWO256 - p * amount) % TWO256 = 0 := by
+              rw [heq, Nat.add_sub_cancel_left, Nat.mod_self]
+            rw [if_pos this]; rfl
+          · -- the wrapped denominator is at least 2^255: the quotient is at most 1, far below the minimum price
+            have hD : (liq * TWO64 + TWO256 - p * amount) % TWO256 = liq * TWO64 + TWO256 - p * amount :=
+              Nat.mod_eq_of_lt (by omega)
+            rw [hD]
+            have hDpos : liq * TWO64 + TWO256 - p * amount ≠ 0 := by omega
+            rw [if_neg hDpos]
+            have hq : liq * p * TWO64 / (liq * TWO64 + TWO256 - p * amount) ≤ 1 := by
+              apply Nat.le_of_lt_succ
+              apply (Nat.div_lt_iff_lt_mul (by omega)).mpr
+              omega
+            have hmin : 2 < MIN_SQRT_PRICE_X64 := by decide +kernel
+            generalize liq * p * TWO64 / (liq * TWO64 + TWO256 - p * amount) = q at *
+            generalize liq * p * TWO64 % (liq * TWO64 + TWO256 - p * amount) = r at *
+            have hlt : (if r ≠ 0 then q + 1 else q) < MIN_SQRT_PRICE_X64 := by split <;> omega
+            have hc2 : (decide ((if r ≠ 0 then q + 1 else q) < MIN_SQRT_PRICE_X64) ||
+                decide ((if r ≠ 0 then q + 1 else q) > MAX_SQRT_PRICE_X64)) = true := by
+              rw [decide_eq_true hlt]; rfl
+            rw [if_pos hc2]; rfl
+        · have hc : ¬ decide (liq * TWO64 ≤ p * amount) = true := by simp [hle]
+          rw [if_neg hc]
+          have hD : (liq * TWO64 + TWO256 - p * amount) % TWO256 = liq * TWO64 - p * amount := by
+            have : liq * TWO64 + TWO256 - p * amount = (liq * TWO64 - p * amount) + TWO256 := by omega
+            rw [this, Nat.add_mod_right, Nat.mod_eq_of_lt (by omega)]
+          rw [hD]
+          have hDpos : liq * TWO64 - p * amount ≠ 0 := by omega
+          rw [if_neg hDpos]
+          exact tail _ hDpos
+
+
+set_option linter.unusedVariables false in
+/-- **next price from token B**: whatever the SDK returns is the program's value; and every value the program
+    returns inside the protocol price bounds (the only ones a swap step can use) the SDK returns as well -/
+theorem sdk_next_b_eq (p liq amount : Nat) (i : Bool) (v : Nat) (hl0 : 0 < liq) (hp : p ≤ U128_MAX) (hl : liq ≤ U128_MAX)
+    (ha : amount ≤ U64_MAX) :
+    (sdkNextFromB p liq amount i = .ok v → getNextSqrtPriceFromBRoundDown p liq amount i = .ok v) ∧
+    (getNextSqrtPriceFromBRoundDown p liq amount i = .ok v → MIN_SQRT_PRICE_X64 ≤ v → v ≤ MAX_SQRT_PRICE_X64 →
+      sdkNextFromB p liq amount i = .ok v) := by
+  have hmax : MAX_SQRT_PRICE_X64 ≤ U128_MAX := by decide +kernel
+  have hW : U128_MAX + U64_MAX * TWO64 + 1 < TWO256 := by decide +kernel
+  have hliq : liq ≠ 0 := by omega
+  have hsh : amount * TWO64 ≤ U64_MAX * TWO64 := Nat.mul_le_mul_right _ ha
+  have hq : amount * TWO64 / liq ≤ amount * TWO64 := Nat.div_le_self _ _
+  unfold sdkNextFromB getNextSqrtPriceFromBRoundDown divRoundUpIf
+  simp only [hliq, if_false]
+  by_cases h0 : amount = 0
+  · subst h0
+    simp only [if_true, Nat.zero_mul, Nat.zero_div, Nat.zero_mod, Nat.lt_irrefl, decide_false, Bool.and_false, Bool.false_eq_true,
+      if_false, Nat.add_zero, Nat.sub_zero, Nat.zero_le]
+    cases i with
+    | true => simp only [if_true, hp]; exact ⟨fun h => h, fun h _ _ => h⟩
+    | false => simp only [Bool.false_eq_true, if_false]; exact ⟨fun h => h, fun h _ _ => h⟩
+  · simp only [h0, if_false]
+    cases i with
+    | true =>
+      simp only [Bool.not_true, Bool.false_and, Bool.false_eq_true, if_false, if_true]
+      generalize amount * TWO64 / liq = d at *
+      constructor
+      · intro h
+        split at h
+        · cases h
+        · rename_i hb
+          cases h
+          simp only [Bool.or_eq_true, decide_eq_true_eq, not_or, Nat.not_lt] at hb
+          rw [if_pos (by omega)]
+      · intro h h1 h2
+        split at h
+        · cases h
+          rw [if_neg (by simp; omega)]
+        · cases h
+    | false =>
+      simp only [Bool.not_false, Bool.true_and, Bool.false_eq_true, if_false]
+      have hdec : (decide (amount * TWO64 % liq > 0)) = (decide (amount * TWO64 % liq ≠ 0)) := by
+        by_cases c : amount * TWO64 % liq = 0
+        · simp [c]
+        · simp [c, Nat.pos_of_ne_zero c]
+      rw [hdec]
+      have hd : (if decide (amount * TWO64 % liq ≠ 0) = true then amount * TWO64 / liq + 1 else amount * TWO64 / liq) ≤ U64_MAX * TWO64 + 1 := by
+        split <;> omega
+      generalize (if decide (amount * TWO64 % liq ≠ 0) = true then amount * TWO64 / liq + 1 else amount * TWO64 / liq) = d at *
+      by_cases hdp : d ≤ p
+      · have e : (p + TWO256 - d) % TWO256 = p - d := by
+          have : p + TWO256 - d = (p - d) + TWO256 := by omega
+          rw [this, Nat.add_mod_right, Nat.mod_eq_of_lt (by omega)]
+        rw [e, if_pos hdp]
+        constructor
+        · intro h
+          split at h
+          · cases h
+          · cases h; rfl
+        · intro h h1 h2
+          cases h
+          rw [if_neg (by simp; omega)]
+      · have e : (p + TWO256 - d) % TWO256 = p + TWO256 - d := Nat.mod_eq_of_lt (by omega)
+        rw [e, if_neg hdp]
+        constructor
+        · intro h
+          split at h
+          · cases h
+          · rename_i hb
+            simp only [Bool.or_eq_true, decide_eq_true_eq, not_or, Nat.not_lt] at hb
+            omega
+        · intro h; cases h
+
+
 end WP.C20
